@@ -8,6 +8,9 @@ src = '/tmp/seed/%s-out' % pid
 offset = 0
 if '--round2' in sys.argv:          # second wave: /tmp/seed/<ID>-out2/ -> seeded/<ID>-s4..6
     src, offset = '/tmp/seed/%s-out2' % pid, 3
+if '--src' in sys.argv:             # later waves: --src DIR --offset N -> seeded/<ID>-s<N+1>..
+    src = sys.argv[sys.argv.index('--src') + 1]
+    offset = int(sys.argv[sys.argv.index('--offset') + 1])
 wt = '/tmp/seedverify'
 head = subprocess.run(['git', '-C', '/repo', 'rev-parse', 'HEAD'], capture_output=True, text=True, check=True).stdout.strip()
 if not os.path.isdir(wt):
